@@ -27,7 +27,7 @@ func (w *vWorld) suppliersAt(t int, k vKey) []vSup {
 			continue
 		}
 		for i, res := range r.f.results {
-			if res.key().eq(k) {
+			if res.hasKey(k) {
 				out = append(out, vSup{r, i})
 			}
 		}
@@ -53,18 +53,29 @@ func (w *vWorld) decoratorAt(t int, k vKey) (vSup, bool) {
 // resolveDecor finds the nearest enclosing decorator for k that is not being
 // built right now and is not self.
 func (w *vWorld) resolveDecor(s int, k vKey, self *vReg) (vSup, bool) {
+	return w.resolveDecorX(s, k, vExcl(self, nil))
+}
+
+func vExcl(self *vReg, excl []*vReg) []*vReg {
+	if self != nil && self.f.kind == vDecor {
+		return append(append([]*vReg(nil), excl...), self)
+	}
+	return excl
+}
+
+// resolveDecorX skips the decorators in excl (those that would be on dig's
+// stack at this point of a hypothetical resolution).
+func (w *vWorld) resolveDecorX(s int, k vKey, excl []*vReg) (vSup, bool) {
 	for _, t := range w.pathToRoot(s) {
-		if d, ok := w.decoratorAt(t, k); ok && d.reg != self && !w.onStack(d.reg) {
+		if d, ok := w.decoratorAt(t, k); ok && !vHas(excl, d.reg) && !w.onStack(d.reg) {
 			return d, true
 		}
 	}
 	return vSup{}, false
 }
 
-// resolve returns the expected supplier of single key k for a consumer
-// resolving from scope s.
-func (w *vWorld) resolve(s int, k vKey, self *vReg) (vSup, bool) {
-	if d, ok := w.resolveDecor(s, k, self); ok {
+func (w *vWorld) resolveX(s int, k vKey, excl []*vReg) (vSup, bool) {
+	if d, ok := w.resolveDecorX(s, k, excl); ok {
 		return d, true
 	}
 	for _, t := range w.pathToRoot(s) {
@@ -73,6 +84,12 @@ func (w *vWorld) resolve(s int, k vKey, self *vReg) (vSup, bool) {
 		}
 	}
 	return vSup{}, false
+}
+
+// resolve returns the expected supplier of single key k for a consumer
+// resolving from scope s.
+func (w *vWorld) resolve(s int, k vKey, self *vReg) (vSup, bool) {
+	return w.resolveX(s, k, vExcl(self, nil))
 }
 
 // feeders lists all visible constructors feeding group key k from scope s.
@@ -89,6 +106,11 @@ func (w *vWorld) resScope(r *vReg) int { return r.scope }
 // unavailable reports whether r cannot be built because a required
 // dependency is (transitively) missing.
 func (w *vWorld) unavailable(r *vReg, visiting []*vReg) bool {
+	return w.unavailableX(r, visiting, nil)
+}
+
+func (w *vWorld) unavailableX(r *vReg, visiting []*vReg, excl []*vReg) bool {
+	excl = vExcl(r, excl)
 	for _, v := range visiting {
 		if v == r {
 			return false
@@ -103,17 +125,17 @@ func (w *vWorld) unavailable(r *vReg, visiting []*vReg) bool {
 			if p.soft {
 				continue
 			}
-			if _, ok := w.resolveDecor(w.resScope(r), p.key(), r); ok {
+			if _, ok := w.resolveDecorX(w.resScope(r), p.key(), excl); ok {
 				continue
 			}
 			for _, fd := range w.feeders(w.resScope(r), p.key()) {
-				if w.unavailable(fd.reg, visiting) {
+				if w.unavailableX(fd.reg, visiting, excl) {
 					return true
 				}
 			}
 			continue
 		}
-		sup, ok := w.resolve(w.resScope(r), p.key(), r)
+		sup, ok := w.resolveX(w.resScope(r), p.key(), excl)
 		if !ok {
 			if !p.optional {
 				return true
@@ -123,7 +145,7 @@ func (w *vWorld) unavailable(r *vReg, visiting []*vReg) bool {
 		if p.optional {
 			continue
 		}
-		if w.unavailable(sup.reg, visiting) {
+		if w.unavailableX(sup.reg, visiting, excl) {
 			return true
 		}
 	}
@@ -147,21 +169,25 @@ func vHas(l []*vReg, r *vReg) bool {
 
 // closure computes the dependency closure of params resolved from scope s.
 func (w *vWorld) closure(s int, params []*vParam, self *vReg, cl *vClosure, must bool) {
+	w.closureX(s, params, vExcl(self, nil), cl, must)
+}
+
+func (w *vWorld) closureX(s int, params []*vParam, excl []*vReg, cl *vClosure, must bool) {
 	for _, p := range params {
 		if p.group != "" {
-			if d, ok := w.resolveDecor(s, p.key(), self); ok {
-				w.addClosure(d.reg, cl, must)
+			if d, ok := w.resolveDecorX(s, p.key(), excl); ok {
+				w.addClosure(d.reg, cl, must, excl)
 				continue
 			}
 			if p.soft {
 				continue
 			}
 			for _, fd := range w.feeders(s, p.key()) {
-				w.addClosure(fd.reg, cl, must)
+				w.addClosure(fd.reg, cl, must, excl)
 			}
 			continue
 		}
-		sup, ok := w.resolve(s, p.key(), self)
+		sup, ok := w.resolveX(s, p.key(), excl)
 		if !ok {
 			if !p.optional && must {
 				cl.missing = true
@@ -169,17 +195,17 @@ func (w *vWorld) closure(s int, params []*vParam, self *vReg, cl *vClosure, must
 			continue
 		}
 		m := must
-		if p.optional && w.unavailable(sup.reg, nil) {
+		if p.optional && w.unavailableX(sup.reg, nil, excl) {
 			m = false
 		}
-		if m && w.unavailable(sup.reg, nil) {
+		if m && w.unavailableX(sup.reg, nil, excl) {
 			cl.missing = true
 		}
-		w.addClosure(sup.reg, cl, m)
+		w.addClosure(sup.reg, cl, m, excl)
 	}
 }
 
-func (w *vWorld) addClosure(r *vReg, cl *vClosure, must bool) {
+func (w *vWorld) addClosure(r *vReg, cl *vClosure, must bool, excl []*vReg) {
 	inMay := vHas(cl.may, r)
 	inMust := vHas(cl.must, r)
 	if inMay && (inMust || !must) {
@@ -194,11 +220,180 @@ func (w *vWorld) addClosure(r *vReg, cl *vClosure, must bool) {
 	if r.succeeded() != nil {
 		return // already built: its dependencies are not demanded again
 	}
-	w.closure(w.resScope(r), r.f.params, r, cl, must)
+	w.closureX(w.resScope(r), r.f.params, vExcl(r, excl), cl, must)
 }
 
 func (w *vWorld) invokeClosure(s int, f *vFunc) *vClosure {
 	cl := &vClosure{}
 	w.closure(s, f.params, nil, cl, true)
 	return cl
+}
+
+// ---- dependency-cycle models (C05) ----------------------------------------------------------
+
+// depends reports whether some parameter of f is fed by a result of g
+// (plain, named, optional, object-field and group edges alike).
+func vDepends(f, g *vReg) bool {
+	for _, p := range f.f.params {
+		for _, r := range g.f.results {
+			if r.hasKey(p.key()) {
+				return true
+			}
+		}
+	}
+	return false
+}
+
+func (w *vWorld) ctors(extra *vReg) []*vReg {
+	var out []*vReg
+	for _, r := range w.regs {
+		if r.accepted && r.f.kind == vCtor {
+			out = append(out, r)
+		}
+	}
+	if extra != nil {
+		out = append(out, extra)
+	}
+	return out
+}
+
+func vCyclic(nodes []*vReg, edge func(f, g *vReg) bool) bool {
+	state := make([]int, len(nodes))
+	var dfs func(i int) bool
+	dfs = func(i int) bool {
+		state[i] = 1
+		for j := range nodes {
+			if !edge(nodes[i], nodes[j]) {
+				continue
+			}
+			if state[j] == 1 {
+				return true
+			}
+			if state[j] == 0 && dfs(j) {
+				return true
+			}
+		}
+		state[i] = 2
+		return false
+	}
+	for i := range nodes {
+		if state[i] == 0 && dfs(i) {
+			return true
+		}
+	}
+	return false
+}
+
+// cycleInView reports a cycle among the constructors visible from scope s.
+func (w *vWorld) cycleInView(s int, extra *vReg) bool {
+	var nodes []*vReg
+	for _, r := range w.ctors(extra) {
+		if w.isAncestorOrSelf(r.home, s) {
+			nodes = append(nodes, r)
+		}
+	}
+	return vCyclic(nodes, vDepends)
+}
+
+// strictCycle: some single scope sees a cycle.
+func (w *vWorld) strictCycle(extra *vReg) bool {
+	for s := range w.scopes {
+		if w.cycleInView(s, extra) {
+			return true
+		}
+	}
+	return false
+}
+
+// permissiveCycle: a cycle under the most permissive reading.  Nodes are the
+// accepted constructors and decorators; a consumer depends on every
+// constructor producing, and every decorator decorating, one of its
+// parameter keys, provided the two live on one root path.
+func (w *vWorld) permissiveCycle(extra *vReg) bool {
+	nodes := w.ctors(extra)
+	for _, r := range w.regs {
+		if r.accepted && r.f.kind == vDecor {
+			nodes = append(nodes, r)
+		}
+	}
+	return vCyclic(nodes, func(f, g *vReg) bool {
+		if f == g && f.f.kind == vDecor {
+			return false // a decorator consuming its own key is not a cycle
+		}
+		fs, gs := f.home, g.home
+		if f.f.kind == vDecor {
+			fs = f.scope
+		}
+		if g.f.kind == vDecor {
+			gs = g.scope
+		}
+		return (w.isAncestorOrSelf(fs, gs) || w.isAncestorOrSelf(gs, fs)) && vDepends(f, g)
+	})
+}
+
+// resCycle reports whether resolving params from scope s runs into a
+// constructor that is already being resolved (directly or through the
+// parameters of a decorator).
+func (w *vWorld) resCycle(s int, params []*vParam, self *vReg, path []*vReg) bool {
+	return w.resCycleX(s, params, vExcl(self, nil), path)
+}
+
+func (w *vWorld) resCycleX(s int, params []*vParam, excl []*vReg, path []*vReg) bool {
+	for _, p := range params {
+		var sups []vSup
+		if p.group != "" {
+			if d, ok := w.resolveDecorX(s, p.key(), excl); ok {
+				sups = []vSup{d}
+			} else if p.soft {
+				continue
+			} else {
+				sups = w.feeders(s, p.key())
+			}
+		} else {
+			sup, ok := w.resolveX(s, p.key(), excl)
+			if !ok {
+				continue
+			}
+			sups = []vSup{sup}
+		}
+		for _, sup := range sups {
+			if sup.reg.succeeded() != nil {
+				continue
+			}
+			if sup.reg.f.kind == vCtor && vHas(path, sup.reg) {
+				return true
+			}
+			np := path
+			if sup.reg.f.kind == vCtor {
+				np = append(append([]*vReg(nil), path...), sup.reg)
+			}
+			if w.resCycleX(w.resScope(sup.reg), sup.reg.f.params, vExcl(sup.reg, excl), np) {
+				return true
+			}
+		}
+	}
+	return false
+}
+
+// dupKey reports whether registering f with home scope t provides a single
+// key twice or one the scope already provides.
+func (w *vWorld) dupKey(f *vFunc, t int) bool {
+	var seen []vKey
+	for _, r := range f.results {
+		if r.group != "" {
+			continue
+		}
+		for _, k := range r.keys() {
+			for _, s := range seen {
+				if s.eq(k) {
+					return true
+				}
+			}
+			seen = append(seen, k)
+			if len(w.suppliersAt(t, k)) > 0 {
+				return true
+			}
+		}
+	}
+	return false
 }
